@@ -659,6 +659,9 @@ type ceWithBoth struct {
 func (p *ceWithBoth) ID() string        { return p.id }
 func (p *ceWithBoth) Data() interface{} { return p.data }
 
+// sigTails: a signature is an opaque string; separators below 0x20, quotes and backslashes are legal in it.
+var sigTails = []string{"", "", "\x1fkeyid", "\x00", "\"q\\", "\x7f\n"}
+
 func runCloudEvents(rc *RunCtx) {
 	tp := rc.Tape
 	sim := rc.Sim
@@ -699,7 +702,8 @@ func runCloudEvents(rc *RunCtx) {
 			if failAt[signN] {
 				return "", fmt.Errorf("injected signer failure #%d", signN)
 			}
-			return fmt.Sprintf("hmac(%s,%x)", k, fnv(string(b))), nil
+			// (a signature is an opaque string: separators below 0x20, quotes and backslashes are legal in it)
+			return fmt.Sprintf("hmac(%s,%x)%s", k, fnv(string(b)), sigTails[signN%len(sigTails)]), nil
 		}
 	}
 	hasSigner := signerMode != 0
@@ -947,7 +951,7 @@ func runCloudEvents(rc *RunCtx) {
 							rc.Failf("C18.serialized", "contains-signature", "the serialized document already contains a signature")
 						}
 					}
-					want := fmt.Sprintf("hmac(%s,%x)", key, fnv(string(given)))
+					want := fmt.Sprintf("hmac(%s,%x)%s", key, fnv(string(given)), sigTails[signN%len(sigTails)])
 					if str("serialized_hmac") != want {
 						rc.Failf("C18.hmac", "", "serialized_hmac %q is not the (current) signer's result %q for the serialized bytes", str("serialized_hmac"), want)
 					}
